@@ -125,8 +125,11 @@ def execute(program, opts):
             ctx.probe("lockout_reached")
         return res
 
+    fail_calls = []
+
     def failed(user, addr):
         auto.failed(user, addr, env.vnow())
+        fail_calls.append((env.vnow(), user, addr, CONN.get()))
         return real_failed(user, addr)
 
     client.check_allow = check
@@ -168,6 +171,7 @@ def execute(program, opts):
                 user, pw = step["user"], step["pw"]
                 right = USERS.get(user, {}).get("password") is not None and pw == USERS[user]["password"]
                 n_dec = len(decisions)
+                n_fail = len(fail_calls)
                 r = await s.command(f'LOGIN {user} "{pw}"' if pw != "" else f'LOGIN {user} ""', timeout=90.0)
                 C("c18_login_attempt")
                 ctx.sig(cid, "login", user, right, r.status)
@@ -196,6 +200,11 @@ def execute(program, opts):
                 else:
                     if right and allowed and USERS[user].get("maildir", True):
                         V(PROP, "unlocked_attempt_refused", conn=cid, user=user, reply=r.brief(), why="correct password, throttle allowed, LOGIN refused")
+                    if not right and allowed and dec:
+                        # a failed attempt has to be recorded against the user and the address
+                        C("c18_failure_recorded")
+                        if not [f for f in fail_calls[n_fail:] if f[3] == me and f[1] == user]:
+                            V(PROP, "failure_not_recorded", conn=cid, user=user, proto="imap")
             elif step["op"] == "post" and ok_login:
                 r = await s.command(step["line"], timeout=150.0)
                 C("c18_postauth_command")
@@ -229,6 +238,7 @@ def execute(program, opts):
                 right = USERS.get(user, {}).get("password") is not None and pw == USERS[user]["password"]
                 await p.cmd(f"USER {user}")
                 n_dec = len(decisions)
+                n_fail = len(fail_calls)
                 ln = await p.cmd(f"PASS {pw}")
                 C("c18_login_attempt")
                 ctx.sig(cid, "pass", user, right, None if ln is None else ln[:3])
@@ -247,6 +257,10 @@ def execute(program, opts):
                     ctx.probe("login_ok")
                 elif right and allowed and dec and USERS[user].get("maildir", True):
                     V(PROP, "unlocked_attempt_refused", conn=cid, user=user, reply=ln[:60], proto="pop3")
+                elif not right and allowed and dec:
+                    C("c18_failure_recorded")
+                    if not [f for f in fail_calls[n_fail:] if f[3] == me and f[1] == user]:
+                        V(PROP, "failure_not_recorded", conn=cid, user=user, proto="pop3")
         p.close()
 
     async def main():
